@@ -74,11 +74,12 @@ SimNext ==
         \/ FExpCtx(f) /\ Rel(f, "")
         \/ FRet(f) /\ Rel(f, "")
   \/ \E s \in Stoppers :
-        \/ SCall(s) /\ (IF \E o \in Stoppers : pc[o] \notin {"idle", "oncewait"}
+        \/ SCall(s) /\ Keep                 \* (model only: the real call is made when s is released from s@call)
+        \/ SOnce(s) /\ (IF pc'[s] = "oncewait"
                           THEN Rel(s, "")      \* a later caller really calls now and blocks in sync.Once
-                          ELSE Keep)           \* the first caller: call and SSet are one real step
+                          ELSE Keep)           \* the caller that runs the body: call, Once and SSet are one real step
         \/ SSet(s) /\ Rel(s, s \o "@bsp.sd.stopped")
-        \/ HClose /\ pc[s] \notin {"idle", "set", "oncewait"} /\ hs = "close" /\ Rel2(s, HS, s \o "@bsp.sd.closed")
+        \/ HClose /\ pc[s] \notin {"idle", "once", "set", "oncewait"} /\ hs = "close" /\ Rel2(s, HS, s \o "@bsp.sd.closed")
         \/ SWait(s) /\ Rel(s, "")
         \/ SCtx(s) /\ hs # "close" /\ Rel(s, "")   \* (the helper is started by the release that precedes SCtx)
         \/ SOnceWait(s) /\ Keep
